@@ -1075,9 +1075,6 @@ class Live:
         elif kind == 'pk_lat':
             lt = self.lattice_of(sl, ev[2], kind)
             out = call(lambda: pickle.loads(pickle.dumps(lt[0], ev[3])))
-            if not out.ok and isinstance(out.exc, RecursionError) and len(sl.fca.concepts()) >= 300:
-                rec.log('recursion')   # size limit of lattice pickling (known finding S4): C11's subject
-                return (s,)
             self.need(out.ok, 'lattice_pickles', lambda: f'pickle round trip of a lattice raised {out.text()}')
             sl.add_lat(out.value, 'unpickle')
             rec.fault('same_process_unpickle')
@@ -1089,9 +1086,6 @@ class Live:
                 data = call(pickle.dumps, lt[0], 4)
             else:
                 data = call(pickle.dumps, sl.ctxs[w % len(sl.ctxs)], 4)
-            if not data.ok and isinstance(data.exc, RecursionError) and what == 'lat' and len(sl.fca.concepts()) >= 300:
-                rec.log('recursion')
-                return (s,)
             self.need(data.ok, 'pickles', lambda: f'pickle.dumps raised {data.text()}')
             collide = (mode == 'collide' and other is not None and other is not sl
                        and other.objs == sl.objs and other.props == sl.props)
